@@ -1054,7 +1054,7 @@ func c24GenEp(r *vu.RNG) string {
 		sd = want + 1
 	}
 	hm := uint64(0)
-	if r.Chance(1, 15) {
+	if r.Chance(1, 8) {
 		hm = uint64(1 + r.Intn(5))
 	}
 	slot := uint64(r.Intn(1 << 20))
